@@ -16,7 +16,7 @@ CLAUSES = {
 FUNCTIONS = ["TaskPool._map", "TaskPool._arg_consumer", "TaskPool._get_map_end_callback", "helpers.star_function",
              "TaskPool.map", "TaskPool.starmap", "TaskPool.doublestarmap"]
 
-ALPHA = ("rel", "fail", "cancel", "apply1", "nop")
+ALPHA = ("rel", "fail", "cancel", "apply1", "selfret", "nop")
 NOP = len(ALPHA) - 1
 
 
